@@ -669,6 +669,7 @@ func main() {
 		if core.Want("wire/pairs") {
 			runWire(res, o.Shard, o.Shards)
 		}
+		runBackpressure(res, o.Shard, o.Shards)
 		sig.Cleanup()
 		core.Finish(res, t0)
 	}
@@ -750,11 +751,29 @@ func replay(path string) {
 		Replay struct {
 			Config string `json:"config"`
 			Ops    []op   `json:"ops"`
+			Wire   []int  `json:"wire_pair"`
+			BackP  int    `json:"back_pressure"`
 		} `json:"replay"`
 	}
 	if err := json.Unmarshal(data, &a); err != nil {
 		fmt.Println(err)
 		os.Exit(2)
+	}
+	if a.Replay.Wire != nil || a.Replay.BackP > 0 {
+		// short conformance sub-checks: the whole sub-check is the replay
+		r := &core.Result{Property: "C15"}
+		if a.Replay.Wire != nil {
+			runWire(r, 0, 1)
+		} else {
+			runBackpressure(r, 0, 1)
+		}
+		sig.Cleanup()
+		if len(r.Violations) > 0 {
+			fmt.Printf("VIOLATION property=C15 replay=%s\n  %s\n", path, r.Violations[0].What)
+			os.Exit(1)
+		}
+		fmt.Println("replay: no violation")
+		return
 	}
 	ops := make([]seqx.Op, len(a.Replay.Ops))
 	for i, x := range a.Replay.Ops {
